@@ -132,7 +132,7 @@ def run_tasks(tasks, jobs, hard_timeout_s):
 def run_contracts(pid, idxs, timeout_ms, jobs, override=None, hard_timeout_s=None):
     tasks = [(pid, i, timeout_ms, override) for i in idxs]
     if hard_timeout_s is None:
-        hard_timeout_s = 420 if timeout_ms <= 10000 else 2400
+        hard_timeout_s = 900 if timeout_ms <= 10000 else 2400
     res = run_tasks(tasks, jobs, hard_timeout_s)
     cds = load_contracts(pid)
     for r, t in zip(res, tasks):
